@@ -222,7 +222,14 @@ pub fn parse_divert_line(input: &str) -> Result<Vec<Node>, CompilerError> {
         if !rest.is_empty() && !rest.starts_with("->") && rest.contains('(') {
             // Parse `target` or `target(args)` from `rest`
             let (target_name, args) = if let Some(open) = rest.find('(') {
-                let close = rest.rfind(')').unwrap_or(rest.len() - 1);
+                let close = match rest.rfind(')') {
+                    Some(close) if close > open => close,
+                    _ => {
+                        return Err(CompilerError::invalid_source(
+                            "unbalanced parentheses in divert arguments".to_owned(),
+                        ));
+                    }
+                };
                 let tname = rest[..open].trim().to_owned();
                 let args_str = &rest[open + 1..close];
                 let mut args = Vec::new();
@@ -253,7 +260,14 @@ pub fn parse_divert_line(input: &str) -> Result<Vec<Node>, CompilerError> {
     // Helper to parse "target" or "target(arg1, arg2)" from a segment
     fn parse_segment(segment: &str) -> Result<(String, Vec<Expression>), CompilerError> {
         if let Some(open) = segment.find('(') {
-            let close = segment.rfind(')').unwrap_or(segment.len() - 1);
+            let close = match segment.rfind(')') {
+                Some(close) if close > open => close,
+                _ => {
+                    return Err(CompilerError::invalid_source(
+                        "unbalanced parentheses in divert arguments".to_owned(),
+                    ));
+                }
+            };
             let target = segment[..open].trim().to_owned();
             let args_str = &segment[open + 1..close];
             let mut args = Vec::new();
